@@ -52,7 +52,11 @@ def marks_of(b):
         eqg = False
         for s, vals, term in g:
             atom, truth = mir.cond_atoms(term, vals)
-            if atom[0] == "call" and atom[1].endswith("::eq") and any("room_id" in full_path(b, x) for x in atom[2]):
+            # any comparison (room ids, dates, days) on the way to the mark makes it conditional on how the
+            # old and the new version relate; only `is there a previous version / a room` tests are expected
+            if atom[0] == "call" and (atom[1].endswith("::eq") or atom[1].endswith("::ne")):
+                eqg = True
+            if atom[0] == "bin" and atom[1] in ("Eq", "Ne", "Lt", "Le", "Gt", "Ge"):
                 eqg = True
         out.append({"block": bi, "room": full_path(b, a[1]), "entity": full_path(b, a[2]), "date": full_path(b, a[3]), "room_cmp_guard": eqg, "loc": b.loc(bi)})
     return out
@@ -139,7 +143,7 @@ def run(P, C, tier):
                 dep = [m for m in hit if m["room_cmp_guard"]]
                 if dep:
                     ok = False
-                    det += " -- but only under a room comparison: a row that stays in its room and changes day leaves the previous day's hash stale"
+                    det += " -- but only under a comparison between the old and the new version (room or day): the mark of the previous (room, day) must be unconditional, every combination of same/other room and same/other day changes that day's content"
             C.ob("R3", "%s:%s" % (short, what.replace(" ", "-").replace(",", "")), ok, hit[0]["loc"] if hit else b.loc(), det)
         # entity argument belongs to the same row as the room
         for m in ms:
@@ -206,6 +210,30 @@ def run(P, C, tier):
             n += 1
             C.ob("R5", "chain:" + rec, room_eq and ent_eq, cp.loc(bi), "history chained from the previous entry only when previous_room==room (%s) and previous_entity==entity (%s)" % (room_eq, ent_eq))
         C.floor("R5", "history continuation sites", n, 2)
+        # the carried values: after every row, previous_hash / previous_history hold that row's (stored or computed)
+        # hashes; a literal None makes the next recomputed day start an empty chain although a predecessor exists
+        for var, src in (("previous_history", "history_hash"), ("previous_hash", "daily_hash")):
+            bad = []
+            good = 0
+            for l, nme in cp.names.items():
+                if nme != var:
+                    continue
+                for (bi, si, rv, lhs) in cp.defs().get(l, ()):
+                    if si is None or len(lhs) != 1 or cp.blocks[bi]["cl"] or bi not in cp.live_blocks():
+                        continue
+                    t = cp.def_term(bi, si, rv, 0)
+                    hdrs = [hb for hb, ht in cp.live_calls() if callee_name(ht).endswith("Rows::next")]
+                    in_loop = any(cp.dominates(hb, bi) for hb in hdrs)
+                    if not in_loop:
+                        continue   # initialisation before the loop
+                    u = strip_refs(t)
+                    if u[0] == "aggr" and u[3] == "None":
+                        bad.append("%s:%d" % (cp.file, cp.blocks[bi]["s"][si]["at"][0]))
+                    else:
+                        good += 1
+            C.ob("R5", "carried:" + var, not bad and good >= 2, bad[0] if bad else cp.loc(),
+                 "inside the row loop `%s` is always taken from the current row (%s, stored or just computed); assignments of a literal None: %s -- after a predecessor row that is not "
+                 "recomputed the next recomputed day then gets no history hash, so the chained history depends on which days are recomputed together" % (var, src, bad or "none"))
         # add_log on the recompute arm
         al = cp.calls_to(r"DailyLogsUpdate::add_log$")
         C.ob("R5", "recomputed-entries-reported", len(al) == 1, cp.loc(), "every recomputed entry is added to the update (feeds C18)", nontrivial=False)
